@@ -2,7 +2,9 @@ package eng
 
 import (
 	"fmt"
+	"go/constant"
 	"go/token"
+	"strings"
 
 	"golang.org/x/tools/go/ssa"
 )
@@ -32,60 +34,111 @@ func termIf(b *ssa.BasicBlock) *ssa.If {
 	return ifi
 }
 
-// phiCond reports whether b ends in an If on a phi defined in b itself.
+// phiCond reports whether b ends in an If whose condition is, or compares, a phi defined in b
+// itself: then the condition depends on the edge b was entered from.
 func phiCond(b *ssa.BasicBlock) *ssa.Phi {
 	ifi := termIf(b)
 	if ifi == nil {
 		return nil
 	}
-	v := ifi.Cond
-	neg := false
-	for {
-		if u, ok := v.(*ssa.UnOp); ok && u.Op == token.NOT {
-			v = u.X
-			neg = !neg
-			continue
+	a := Normalize(ifi.Cond)
+	own := func(v ssa.Value) *ssa.Phi {
+		if v == nil {
+			return nil
 		}
-		break
+		if p, ok := StripConv(v).(*ssa.Phi); ok && p.Block() == b {
+			return p
+		}
+		return nil
 	}
-	_ = neg
-	if p, ok := v.(*ssa.Phi); ok && p.Block() == b {
+	if a.Op == token.ILLEGAL {
+		return own(a.V)
+	}
+	if p := own(a.X); p != nil {
 		return p
 	}
-	return nil
+	return own(a.Y)
 }
 
-// effCond returns the condition tested at the end of s.b, specialised to the incoming edge.
-func effCond(s bstate) (cond ssa.Value, neg bool, ok bool) {
+// effAtom returns the condition tested at the end of s.b as an atom, specialised to the
+// incoming edge: a phi of s.b that is the condition or one of its comparison operands is
+// replaced by the value it carries on that edge.
+func effAtom(s bstate) (Atom, bool) {
 	ifi := termIf(s.b)
 	if ifi == nil {
-		return nil, false, false
+		return Atom{}, false
 	}
-	v := ifi.Cond
-	if s.from >= 0 {
-		for {
-			if u, isU := v.(*ssa.UnOp); isU && u.Op == token.NOT {
-				v = u.X
-				neg = !neg
-				continue
+	a := Normalize(ifi.Cond)
+	if s.from < 0 {
+		return a, true
+	}
+	sub := func(v ssa.Value) (ssa.Value, bool) {
+		if v == nil {
+			return v, false
+		}
+		if p, ok := StripConv(v).(*ssa.Phi); ok && p.Block() == s.b && s.from < len(p.Edges) {
+			return p.Edges[s.from], true
+		}
+		return v, false
+	}
+	if a.Op == token.ILLEGAL {
+		if e, ok := sub(a.V); ok {
+			n := Normalize(e)
+			n.Neg = n.Neg != a.Neg
+			return n, true
+		}
+		return a, true
+	}
+	if e, ok := sub(a.X); ok {
+		a.X = e
+		a.V = nil // no longer the original comparison instruction
+	}
+	if e, ok := sub(a.Y); ok {
+		a.Y = e
+		a.V = nil
+	}
+	return a, true
+}
+
+// atomConst evaluates an atom whose truth value is known statically (bool constants,
+// comparisons of two constants, nil against a freshly made value); the returned value is
+// that of the condition (negation applied).
+func atomConst(a Atom) (bool, bool) {
+	switch a.Op {
+	case token.ILLEGAL:
+		if c, ok := constBool(a.V); ok {
+			return c != a.Neg, true
+		}
+	case token.EQL:
+		x, xok := StripConv(a.X).(*ssa.Const)
+		y, yok := StripConv(a.Y).(*ssa.Const)
+		if xok && yok {
+			if x.Value == nil || y.Value == nil {
+				return (x.Value == nil && y.Value == nil) != a.Neg, true
 			}
-			break
+			if x.Value.Kind() == y.Value.Kind() {
+				return constant.Compare(x.Value, token.EQL, y.Value) != a.Neg, true
+			}
 		}
-		if p, isP := v.(*ssa.Phi); isP && p.Block() == s.b && s.from < len(p.Edges) {
-			return p.Edges[s.from], neg, true
+		if (xok && x.Value == nil && KnownNonNil(a.Y)) || (yok && y.Value == nil && KnownNonNil(a.X)) {
+			return a.Neg, true // value == nil is false
 		}
-		return ifi.Cond, false, true
+	case token.LSS:
+		x, xok := ConstInt(a.X)
+		y, yok := ConstInt(a.Y)
+		if xok && yok {
+			return (x < y) != a.Neg, true
+		}
 	}
-	return v, false, true
+	return false, false
 }
 
 // succStates returns, for every feasible successor of s, its index and the refined state.
 func succStates(s bstate) (idx []int, out []bstate) {
-	cond, neg, ok := effCond(s)
+	a, ok := effAtom(s)
 	for i, nx := range s.b.Succs {
 		if ok {
-			if c, isC := constBool(cond); isC {
-				val := c != neg
+			if val, isC := atomConst(a); isC {
 				if (i == 0) != val {
 					continue // infeasible edge for this incoming value
 				}
@@ -108,20 +161,20 @@ func succStates(s bstate) (idx []int, out []bstate) {
 
 // licensedFrom returns the successor indices of s on which pred holds.
 func licensedFrom(s bstate, p Pred) []int {
-	cond, neg, ok := effCond(s)
+	a, ok := effAtom(s)
 	if !ok {
 		return nil
 	}
-	if _, isC := constBool(cond); isC {
+	if _, isC := atomConst(a); isC {
 		return nil
 	}
-	lic := licensedByCond(cond, p, 0)
-	if neg {
-		for i := range lic {
-			lic[i] = 1 - lic[i]
+	if s.from >= 0 {
+		// the condition as written (over the phi) is tried first, then its edge-specialised form
+		if l := licensedByAtom(Normalize(termIf(s.b).Cond), p); l != nil {
+			return l
 		}
 	}
-	return lic
+	return licensedByAtom(a, p)
 }
 
 // licensedSucc: unrefined variant (used where no path context exists).
@@ -151,7 +204,10 @@ func licensedSucc(b *ssa.BasicBlock, p Pred) []int {
 }
 
 func licensedByCond(cond ssa.Value, p Pred, depth int) []int {
-	a := Normalize(cond)
+	return licensedByAtom(Normalize(cond), p)
+}
+
+func licensedByAtom(a Atom, p Pred) []int {
 	if want, ok := p.Match(a); ok {
 		// atom value needed: want. cond = atom XOR neg.
 		condVal := want != a.Neg // cond value when atom == want
@@ -161,6 +217,91 @@ func licensedByCond(cond ssa.Value, p Pred, depth int) []int {
 		return []int{1}
 	}
 	return nil
+}
+
+// pstate is a bstate plus the outcomes of the tests already taken on the path (a small memo
+// keyed by the tested atom): a later test of the very same SSA values must have the same
+// outcome, so paths that contradict themselves are not explored. The memo is dropped on loop
+// back edges (values are recomputed in the next iteration).
+type pstate struct {
+	bstate
+	memo string
+}
+
+func valKey(v ssa.Value) string {
+	if v == nil {
+		return "-"
+	}
+	v = StripConv(v)
+	if c, ok := v.(*ssa.Const); ok {
+		if c.Value == nil {
+			return "c:nil"
+		}
+		return "c:" + c.Value.ExactString()
+	}
+	return fmt.Sprintf("%p", v)
+}
+
+func atomKey(a Atom) string {
+	if a.Op == token.ILLEGAL {
+		return "v" + valKey(a.V)
+	}
+	return fmt.Sprintf("%d(%s,%s)", a.Op, valKey(a.X), valKey(a.Y))
+}
+
+func memoLookup(memo, key string) (val bool, ok bool) {
+	for _, e := range strings.Split(memo, ";") {
+		if len(e) > 2 && e[:len(e)-2] == key {
+			return e[len(e)-1] == '1', true
+		}
+	}
+	return false, false
+}
+
+func memoAdd(memo, key string, val bool) string {
+	ents := []string{}
+	if memo != "" {
+		ents = strings.Split(memo, ";")
+	}
+	if len(ents) >= 8 {
+		ents = ents[1:]
+	}
+	b := "0"
+	if val {
+		b = "1"
+	}
+	ents = append(ents, key+"="+b)
+	return strings.Join(ents, ";")
+}
+
+// psuccs returns the feasible successors of s (index and refined state).
+func psuccs(s pstate) (idx []int, out []pstate) {
+	a, ok := effAtom(s.bstate)
+	is, ns := succStates(s.bstate)
+	isConst := false
+	if ok {
+		_, isConst = atomConst(a)
+	}
+	for k, n := range ns {
+		memo := s.memo
+		if ok && !isConst && len(s.b.Succs) == 2 {
+			key := atomKey(a)
+			atomVal := (is[k] == 0) != a.Neg
+			if prev, seen := memoLookup(memo, key); seen {
+				if prev != atomVal {
+					continue // contradicts an earlier test of the same values
+				}
+			} else {
+				memo = memoAdd(memo, key, atomVal)
+			}
+		}
+		if n.b.Dominates(s.b) {
+			memo = ""
+		}
+		idx = append(idx, is[k])
+		out = append(out, pstate{n, memo})
+	}
+	return
 }
 
 // GuardResult of a cut-set query.
@@ -195,12 +336,12 @@ func countLicensing(fn *ssa.Function, pred Pred) int {
 func Guarded(target ssa.Instruction, pred Pred) GuardResult {
 	fn := target.Parent()
 	tb := target.Block()
-	start := bstate{fn.Blocks[0], -1}
-	prev := map[bstate]bstate{}
-	seen := map[bstate]bool{start: true}
-	queue := []bstate{start}
+	start := pstate{bstate{fn.Blocks[0], -1}, ""}
+	prev := map[pstate]pstate{}
+	seen := map[pstate]bool{start: true}
+	queue := []pstate{start}
 	edges := countLicensing(fn, pred)
-	var hit *bstate
+	var hit *pstate
 	for len(queue) > 0 && hit == nil {
 		s := queue[0]
 		queue = queue[1:]
@@ -209,8 +350,8 @@ func Guarded(target ssa.Instruction, pred Pred) GuardResult {
 			hit = &x
 			break
 		}
-		lic := licensedFrom(s, pred)
-		idx, nxt := succStates(s)
+		lic := licensedFrom(s.bstate, pred)
+		idx, nxt := psuccs(s)
 		for k, ns := range nxt {
 			skip := false
 			for _, l := range lic {
@@ -332,47 +473,38 @@ func IsNilConst(v ssa.Value) bool {
 // if from == nil), stopping at instructions for which stop() is true, and reports
 // whether an instruction satisfying goal() is reachable. The witness is the block path.
 func Reach(fn *ssa.Function, from ssa.Instruction, stop func(ssa.Instruction) bool, goal func(ssa.Instruction) bool) (bool, []string) {
-	type st struct {
-		b *ssa.BasicBlock
-		i int
-	}
-	start := st{fn.Blocks[0], 0}
+	// The exploration is over path states (block, incoming edge for phi-tested conditions,
+	// outcomes of earlier tests), so a path that contradicts its own tests is not reported.
+	start := pstate{bstate{fn.Blocks[0], -1}, ""}
 	if from != nil {
-		b := from.Block()
-		for i, in := range b.Instrs {
-			if in == from {
-				start = st{b, i + 1}
-			}
-		}
+		start = pstate{bstate{from.Block(), -1}, ""}
 	}
-	prev := map[*ssa.BasicBlock]*ssa.BasicBlock{}
-	seen := map[*ssa.BasicBlock]bool{}
-	queue := []st{start}
+	prev := map[pstate]pstate{}
+	seen := map[pstate]bool{}
+	queue := []pstate{start}
 	first := true
 	for len(queue) > 0 {
 		s := queue[0]
 		queue = queue[1:]
-		if s.i == 0 {
-			if seen[s.b] {
-				continue
-			}
-			seen[s.b] = true
-		} else if !first {
-			continue
-		}
+		skipping := first && from != nil
 		first = false
 		stopped := false
-		for i := s.i; i < len(s.b.Instrs); i++ {
-			in := s.b.Instrs[i]
+		for _, in := range s.b.Instrs {
+			if skipping {
+				if in == from {
+					skipping = false
+				}
+				continue
+			}
 			if goal(in) {
 				var path []string
-				onPath := map[*ssa.BasicBlock]bool{}
-				for b := s.b; b != nil && !onPath[b]; b = prev[b] {
-					onPath[b] = true
-					path = append([]string{fmt.Sprintf("block %d (%s)", b.Index, b.Comment)}, path...)
-					if _, ok := prev[b]; !ok {
+				for x, n := s, 0; n < 200; n++ {
+					path = append([]string{fmt.Sprintf("block %d (%s)", x.b.Index, x.b.Comment)}, path...)
+					p, ok := prev[x]
+					if !ok {
 						break
 					}
+					x = p
 				}
 				return true, path
 			}
@@ -384,13 +516,14 @@ func Reach(fn *ssa.Function, from ssa.Instruction, stop func(ssa.Instruction) bo
 		if stopped {
 			continue
 		}
-		for _, nx := range s.b.Succs {
-			if !seen[nx] {
-				if _, ok := prev[nx]; !ok {
-					prev[nx] = s.b
-				}
-				queue = append(queue, st{nx, 0})
+		_, nxt := psuccs(s)
+		for _, ns := range nxt {
+			if seen[ns] {
+				continue
 			}
+			seen[ns] = true
+			prev[ns] = s
+			queue = append(queue, ns)
 		}
 	}
 	return false, nil
@@ -455,34 +588,59 @@ func Dominates(a, b ssa.Instruction) bool {
 // `x == true` and `x == false` of one switch) are infeasible and pruned; the memory of
 // tested values is dropped on loop back edges.
 func MustFollow(fn *ssa.Function, preds []Pred, effect func(ssa.Instruction) bool) (bool, []string) {
+	return MustFollowFrom(fn, nil, preds, effect)
+}
+
+// MustFollowFrom is MustFollow for the paths that start right after the instruction `from`
+// (nil: at the function entry).
+func MustFollowFrom(fn *ssa.Function, from ssa.Instruction, preds []Pred, effect func(ssa.Instruction) bool) (bool, []string) {
 	const maxP = 8
 	if len(preds) > maxP {
 		preds = preds[:maxP]
 	}
 	type state struct {
 		s     bstate
+		memo  string // outcomes of the tests taken so far (see pstate)
 		flags uint32
 		est   [maxP]ssa.Value // atom that established pred i on this path
 		ref   [maxP]ssa.Value // atom that refuted pred i on this path
 	}
 	full := uint32(1)<<uint(len(preds)) - 1
 	start := state{s: bstate{fn.Blocks[0], -1}}
-	seen := map[state]bool{start: true}
+	if from != nil {
+		start = state{s: bstate{from.Block(), -1}}
+	}
+	first := true
+	seen := map[state]bool{}
 	prev := map[state]state{}
 	queue := []state{start}
 	atomOf := func(s bstate) ssa.Value {
-		cond, _, ok := effCond(s)
+		a, ok := effAtom(s)
 		if !ok {
 			return nil
 		}
-		a := Normalize(cond)
+		if a.V == nil && a.Op != token.ILLEGAL {
+			// substituted comparison: identify it by the substituted operand
+			if _, isC := StripConv(a.Y).(*ssa.Const); isC {
+				return a.X
+			}
+			return a.Y
+		}
 		return a.V
 	}
 	for len(queue) > 0 {
 		s := queue[0]
 		queue = queue[1:]
 		hit := false
+		skipping := first && from != nil
+		first = false
 		for _, in := range s.s.b.Instrs {
+			if skipping {
+				if in == from {
+					skipping = false
+				}
+				continue
+			}
 			if effect(in) {
 				hit = true
 				break
@@ -503,11 +661,12 @@ func MustFollow(fn *ssa.Function, preds []Pred, effect func(ssa.Instruction) boo
 		if hit {
 			continue
 		}
-		idx, nxt := succStates(s.s)
+		idx, pnxt := psuccs(pstate{s.s, s.memo})
 		av := atomOf(s.s)
-		for k, nb := range nxt {
+		for k, pn := range pnxt {
+			nb := pn.bstate
 			i := idx[k]
-			ns := state{s: nb, flags: s.flags, est: s.est, ref: s.ref}
+			ns := state{s: nb, memo: pn.memo, flags: s.flags, est: s.est, ref: s.ref}
 			infeasible := false
 			for pi, p := range preds {
 				lic := licensedFrom(s.s, p)
@@ -648,4 +807,135 @@ func HasLicensingEdgeOrValue(fn *ssa.Function, pred Pred) bool {
 		}
 	})
 	return found
+}
+
+// ZeroPred: P = "x == 0" for a value x accepted by sel. Recognised tests: x == 0 / x != 0, and,
+// when x is known to be non-negative (len, cap, sizes), x < 1, x <= 0, x > 0, x >= 1.
+func ZeroPred(name string, nonneg bool, sel func(x ssa.Value) bool) Pred {
+	return Pred{Name: name, Match: func(a Atom) (bool, bool) {
+		isK := func(v ssa.Value, k int64) bool { c, ok := ConstInt(v); return ok && c == k }
+		switch a.Op {
+		case token.EQL:
+			if (isK(a.Y, 0) && sel(a.X)) || (isK(a.X, 0) && sel(a.Y)) {
+				return true, true
+			}
+		case token.LSS:
+			if !nonneg {
+				return false, false
+			}
+			if isK(a.Y, 1) && sel(a.X) { // x < 1
+				return true, true
+			}
+			if isK(a.X, 0) && sel(a.Y) { // 0 < x
+				return false, true
+			}
+		}
+		return false, false
+	}}
+}
+
+// NonZeroPred: P = "x != 0" for a value x accepted by sel. Recognised tests: x != 0 / x == 0,
+// x > 0, x >= 1, x < 0 (each implies x != 0), and for non-negative x also the negations of
+// x < 1 and x <= 0.
+func NonZeroPred(name string, nonneg bool, sel func(x ssa.Value) bool) Pred {
+	return Pred{Name: name, Match: func(a Atom) (bool, bool) {
+		isK := func(v ssa.Value, k int64) bool { c, ok := ConstInt(v); return ok && c == k }
+		switch a.Op {
+		case token.EQL:
+			if (isK(a.Y, 0) && sel(a.X)) || (isK(a.X, 0) && sel(a.Y)) {
+				return false, true
+			}
+		case token.LSS:
+			if isK(a.X, 0) && sel(a.Y) { // 0 < x
+				return true, true
+			}
+			if isK(a.Y, 1) && sel(a.X) { // x < 1 false => x >= 1
+				return false, true
+			}
+		}
+		return false, false
+	}}
+}
+
+// GuardedEdge reports whether every path from the instruction `from` to a CFG edge accepted by
+// target passes an edge on which pred holds (paths are followed past returns never).
+func GuardedEdge(from ssa.Instruction, target func(src, dst *ssa.BasicBlock) bool, pred Pred) GuardResult {
+	start := pstate{bstate{from.Block(), -1}, ""}
+	seen := map[pstate]bool{start: true}
+	queue := []pstate{start}
+	edges := 0
+	for len(queue) > 0 {
+		s := queue[0]
+		queue = queue[1:]
+		lic := licensedFrom(s.bstate, pred)
+		idx, nxt := psuccs(s)
+		for k, ns := range nxt {
+			skip := false
+			for _, l := range lic {
+				if l == idx[k] {
+					skip = true
+				}
+			}
+			if skip {
+				edges++
+				continue
+			}
+			if target(s.b, ns.b) {
+				return GuardResult{Guarded: false, Edges: edges, Witness: []string{fmt.Sprintf("block %d (%s) -> block %d (%s)", s.b.Index, s.b.Comment, ns.b.Index, ns.b.Comment)}}
+			}
+			if seen[ns] {
+				continue
+			}
+			seen[ns] = true
+			queue = append(queue, ns)
+		}
+	}
+	return GuardResult{Guarded: true, Edges: edges}
+}
+
+// GuardedBetween reports whether every path from the instruction after `from` to an
+// instruction accepted by goal passes an edge on which pred holds.
+func GuardedBetween(from ssa.Instruction, goal func(ssa.Instruction) bool, pred Pred) GuardResult {
+	start := pstate{bstate{from.Block(), -1}, ""}
+	seen := map[pstate]bool{}
+	queue := []pstate{start}
+	edges := 0
+	first := true
+	for len(queue) > 0 {
+		s := queue[0]
+		queue = queue[1:]
+		skipping := first
+		first = false
+		for _, in := range s.b.Instrs {
+			if skipping {
+				if in == from {
+					skipping = false
+				}
+				continue
+			}
+			if goal(in) {
+				return GuardResult{Guarded: false, Edges: edges, Witness: []string{fmt.Sprintf("reaches block %d (%s)", s.b.Index, s.b.Comment)}}
+			}
+		}
+		lic := licensedFrom(s.bstate, pred)
+		idx, nxt := psuccs(s)
+		for k, ns := range nxt {
+			skip := false
+			for _, l := range lic {
+				if l == idx[k] {
+					skip = true
+				}
+			}
+			if skip {
+				edges++
+				continue
+			}
+			if seen[ns] {
+				continue
+			}
+			seen[ns] = true
+			queue = append(queue, ns)
+		}
+	}
+	return GuardResult{Guarded: true, Edges: edges}
 }
